@@ -155,7 +155,42 @@ func muxHarness(rc *RunCtx) {
 				d.deliveredStep = s.Step
 			}
 		}
+		type heldFrame struct {
+			d     *muxDelivery
+			frame []byte
+		}
+		var tailRest []byte
+		var held []heldFrame
 		m.send = func(d *muxDelivery, opid string, frame []byte) {
+			if tailRest != nil {
+				// the peer is in the middle of sending a frame: what it sends next comes after the rest of that frame
+				held = append(held, heldFrame{d, frame})
+				return
+			}
+			if tp.Intn("trailhalf", 8) == 1 {
+				// the bytes of this response arrive together with the first part of the peer's next frame (one for an
+				// op id nobody waits for), whose rest takes its time: the complete response is due now, not then
+				rc.Fault("response-followed-by-the-first-part-of-another-frame")
+				m.evN++
+				unk := EncodeFrame(map[string]string{"_opid": strconv.Itoa(3000000 + m.evN), "_cid": "x", "tag": "nobody"}, []byte("resp:nobody-in-two-parts"))
+				k := 1 + tp.Intn("trailhalf", len(unk)-1)
+				// (two items back to back: the response counts as delivered when ITS last byte is readable)
+				seq := st.PeerWrite(frame)
+				m.bySeq[seq] = d
+				st.PeerWrite(unk[:k])
+				tailRest = unk[k:]
+				delay := []time.Duration{50 * time.Millisecond, 700 * time.Millisecond, 3 * time.Second}[tp.Intn("trailhalf", 3)]
+				m.s.AddEvent(fmt.Sprintf("peer:%03d:rest-of-frame", m.evN), delay, func() {
+					st.PeerWrite(tailRest)
+					tailRest = nil
+					hs := held
+					held = nil
+					for _, h := range hs {
+						m.bySeq[st.PeerWrite(h.frame)] = h.d
+					}
+				})
+				return
+			}
 			seq := st.PeerWrite(frame)
 			m.bySeq[seq] = d
 		}
